@@ -34,6 +34,7 @@ Build(S) ==
      { T(k, "", <<x>>, <<>>) : k \in SeqKinds \cup {"FinalType"}, x \in s }
   \cup { T(k, "", <<x, y>>, <<>>) : k \in SeqKinds \cup {"DictType", "CallableType"}, x \in s, y \in s }
   \cup { T("CallableType", "", <<x>>, <<>>) : x \in s }                         \* no parameters, return x
+  \cup { T("CallableType", "", <<x, y, z>>, <<>>) : x \in s \cap SmallLeaves, y \in s \cap SmallLeaves, z \in {T("NamedType", "A", <<>>, <<>>)} }   \* two parameters
   \cup { T("NamedSequenceType", "Seq", <<x>>, <<>>) : x \in s } \cup { T("NamedSequenceType", "Seq", <<x, y>>, <<>>) : x \in s, y \in s }
   \cup { T("TypeVarType", "T", <<x>>, <<>>) : x \in s }                         \* bounded type variable
   \cup { T(k, "", <<>>, <<>>) : k \in SeqKinds }
@@ -48,7 +49,9 @@ Terms(tier) ==
      ELSE d1 \cup d2 \cup Build(Unary(SmallLeaves) \cup SmallLeaves) \cup Unary(Unary(Unary(tiny)))
 
 (* related terms of a *)
-Swap(t) == IF Len(t.a) = 2 THEN { [t EXCEPT !.a = << t.a[2], t.a[1] >>] } ELSE {}
+Swap(t) == IF Len(t.a) = 2 THEN { [t EXCEPT !.a = << t.a[2], t.a[1] >>] }
+           ELSE IF Len(t.a) = 3 /\ t.k = "CallableType" THEN { [t EXCEPT !.a = << t.a[2], t.a[1], t.a[3] >>] }     \* the two parameters swapped
+           ELSE {}
 Dup(t) == IF Len(t.a) = 1 /\ t.k \in SeqKinds \cup {"NamedSequenceType"} THEN { [t EXCEPT !.a = << t.a[1], t.a[1] >>] } ELSE {}
 Replace(t) == IF Len(t.a) >= 1 THEN { [t EXCEPT !.a[1] = T("NamedType", "Z", <<>>, <<>>)] } ELSE {}
 OtherKind(t) == IF t.k \in SeqKinds THEN { [t EXCEPT !.k = k2] : k2 \in SeqKinds \ {t.k} } ELSE {}
